@@ -20,12 +20,21 @@ def mode_name(m):
     return str(m)
 
 
+def word_info(m):
+    """the raw WordInfo the binding hands out (deprecated entry point Morpheme.get_word_info): ids as raw 32-bit word ids"""
+    w = m.get_word_info()
+    return {"surface": w.surface, "hwl": w.head_word_length, "len": w.length(), "pos_id": w.pos_id, "norm": w.normalized_form,
+            "dfid": w.dictionary_form_word_id, "dform": w.dictionary_form, "read": w.reading_form,
+            "a": list(w.a_unit_split), "b": list(w.b_unit_split), "ws": list(w.word_structure), "syn": list(w.synonym_group_ids)}
+
+
 def dump(ml, text):
     out = []
     for m in ml:
         b, e = m.begin(), m.end()
         raw = m.raw_surface()
         out.append({
+            "wi": word_info(m),
             "b": b, "e": e, "s": m.surface(), "raw": raw, "pos": list(m.part_of_speech()),
             "norm": m.normalized_form(), "dform": m.dictionary_form(), "read": m.reading_form(),
             "did": m.dictionary_id(), "wid": m.word_id(), "oov": m.is_oov(), "len": len(m),
